@@ -24,10 +24,11 @@ cp _seed/patch.diff $out/patch.diff; cp $demo_file $out/; cp _seed/notes.md $out
 echo "confirm: build=$r_build demo_with_patch=$r_with demo_without_patch=$r_without suite_with_patch=$r_suite"
 results=""
 if [ $r_build = ok ] && [ $r_with = FAIL ] && [ $r_without = PASS ] && [ $r_suite = ok ]; then
-  cd /verif
+  V=${VSNAP:-/verif}
+  cd $V
   git -C /repo apply $out/patch.diff || { echo "patch does not apply to /repo"; exit 2; }
   for p in "$@"; do
-    VERIF_SEED=${VERIF_SEED:-4242} ./check $p > $out/check_$p.txt 2>&1; rc=$?
+    VERIF_DIR=$V VERIF_SEED=${VERIF_SEED:-4242} ./check $p > $out/check_$p.txt 2>&1; rc=$?
     line=$(grep -m1 "^VIOLATION" $out/check_$p.txt)
     oracle=$(grep -m1 "^violation:" $out/check_$p.txt | cut -c1-200)
     echo "check $p: exit=$rc $line | $oracle"
